@@ -78,11 +78,31 @@ def build(repo, findings):
         C('C01 otherwise-the-step-fails', '!(res == Ok::<bool, TokenizerError>(true)) ==> res is Err'),
     ])
     u.add(a)
+    # ---- consume_nested_construct: the character after a terminating-char token may be missing (end of input): an error, not a panic
+    src.require_text(r'\n\s*UnterminatedExpansion,', 'projected variant TokenizerError::UnterminatedExpansion')
+    fn = 'nested_terminator_step'
+    n1 = src.block_slice(r'^\s*TokenEndReason::SpecifiedTerminatingChar => \{$',
+                         'fn nested_terminator_step(self_: &mut Tokenizer, state: &mut TokenParseState, nesting_count_: &mut u32) -> Result<bool, TokenizerError>', fn, within_fn='consume_nested_construct')
+    n1.r1()
+    n1.resub(r'\bself\b', 'self_', 'R6', 'slice wrapper: self -> self_', count=None)
+    n1.resub(r'\bnesting_count\b', '*nesting_count_', 'R6', 'the local counter is a `&mut` parameter of the wrapper', count=None)
+    n1.resub(r'\bbreak;', 'return Ok(true);', 'R6', '`break` of the enclosing loop -> the wrapper reports "construct closed"', count=None)
+    n1.resub(r'\n\}$', '\n    Ok(false)\n}', 'R6', 'wrapper epilogue: the loop goes on', count=1)
+    n1.sig(fn, ret='res', requires=[C('aux an-open-construct-is-being-closed', '*old(nesting_count_) >= 1')], ensures=[
+        C('C01 construct-closed-exactly-when-the-count-reaches-zero', 'res is Ok ==> res->Ok_0 == (*old(nesting_count_) == 1)')])
+    u.add(n1)
+    fn = 'nested_construct_tail'
+    n2 = src.slice('consume_nested_construct', r'^ {8}state\.append_char\(', None,
+                   'fn nested_construct_tail(self_: &mut Tokenizer, state: &mut TokenParseState) -> Result<(), TokenizerError>', fn)
+    n2.r1()
+    n2.resub(r'\bself\b', 'self_', 'R6', 'slice wrapper: self -> self_', count=None)
+    n2.sig(fn, ret='res', ensures=[C('C01 the-closing-character-is-appended-or-the-input-ended', 'res is Ok ==> final(state).token_so_far@.len() == old(state).token_so_far@.len() + 1')])
+    u.add(n2)
     u.raw(FOOTER)
-    u.assume('external_body', 'TokenParseState::{pop, started_token, current_token, is_newline, append_str, replace_with_here_doc} and the string helpers are stubs read off their bodies; Token is opaque')
+    u.assume('external_body', 'Tokenizer::next_char (None at the end of the input), TokenParseState::{pop, started_token, current_token, is_newline, append_str, replace_with_here_doc} and the string helpers are stubs read off their bodies; Token is opaque')
     u.assume('stub', 'the invariant "InHereDocs implies a pending tag" is a precondition here and is NOT established for the other call sites of delimit_current_token; the rest of next_token_until (every other branch consumes a character or ends the token — argued in DESIGN.md, not machine-checked) is outside')
     u.assume('assume_specification', 'str::ends_with(char) (contracts/std/str_ops.rs)')
     u.assume('uninterp', 'str_ends_with_spec')
     u.assume('axiom', 'str::ends_with(char) looks at the last character')
-    u.expected_min_fns = 3
+    u.expected_min_fns = 5
     return u
